@@ -26,7 +26,7 @@
        shells of any coordinate types (the four C13_generalized_is_segmented_assembled .._partial theorems: the
        processed block is the segment-major matrix of the tiles; overlap_integral_asymmetric([sa], [sb]) = the
        same of the single-column shells, with transforms; any frame kernel); for SEVERAL shells per basis and
-       the symmetric assembly it is proved for overlap_integral in Props/C13_assembled.v
+       the symmetric assembly it is proved for overlap_integral and kinetic_energy_integral in Props/C13_assembled.v
        (C13_generalized_is_segmented_assembled_overlap: any basis, any coordinate types, with transform; a generic
        reduction for the other symmetric two-index functions is there too); for the other two-index functions
        and the four-index assembly the statement is decided by the correspondence search only.  At shell-block level (the input of the flattening) the law is
